@@ -181,13 +181,13 @@ DAEMON_SHARE = {"C01": 8, "C02": 10, "C03": 2, "C04": 12, "C15": 6, "C16": 25}
 LEVEL = {"C01": "model_checking", "C02": "model_checking", "C03": "model_checking", "C04": "model_checking",
          "C15": "model_checking", "C16": "model_checking"}
 
-def run_and_validate(prop, tier, scenarios, wd):
+def run_and_validate(prop, tier, scenarios, wd, agent_bin=None):
     spath = os.path.join(wd, "scenarios.ndjson")
     with open(spath, "w") as f:
         for s in scenarios:
             f.write(json.dumps(s) + "\n")
     trace = os.path.join(wd, "agent.trace")
-    run_harness("agentrun", ["agent", spath, os.path.join(REPO_BIN, "bgpfu-junos-agent"), 8], trace, timeout=3000)
+    run_harness("agentrun", ["agent", spath, agent_bin or os.path.join(REPO_BIN, "bgpfu-junos-agent"), 8], trace, timeout=3000)
     stats, viols = validate_trace("AgentTrace", trace, prop, f"{prop}-{tier}", TRACE_CFG, nchunks=8)
     return trace, stats, viols
 
@@ -251,6 +251,20 @@ def check(prop, tier):
         payload = {"property": prop, "rule": v["rule"], "disc": v["disc"], "occurrences": v.get("n", 1), "scenario": sc,
                    "events": trace_slice(trace, v.get("case"), 60)}
         verdict.report(v["rule"], v["disc"], payload, detail=f"case={v.get('case')} n={v.get('n', 1)}")
+    if prop == "C15" and tier == "thorough":
+        # the same sets of policies through the agent built with the workspace's release profile: containing an
+        # unevaluable policy depends on what a panic does, and that is the profile's business
+        from vlib import build_repo_bins_release
+        rbin = build_repo_bins_release()
+        rsc = [dict(s, case=s["case"] + "-R") for s in scenarios if not s.get("daemon") and s.get("target") != "local"][:80]
+        rtrace, rstats, rviols = run_and_validate(prop, tier + "-release", rsc, workdir(f"{prop}-{tier}-release"), agent_bin=rbin)
+        rby = {s["case"]: s for s in rsc}
+        for v in rviols:
+            if v["prop"] == prop:
+                verdict.report(v["rule"], v["disc"] + " (release build)", {"property": prop, "rule": v["rule"], "disc": v["disc"], "scenario": rby.get(v.get("case")),
+                                                                          "build": "release", "events": trace_slice(rtrace, v.get("case"), 60)},
+                               detail=f"case={v.get('case')} n={v.get('n', 1)} release build")
+        counts["scenarios_also_run_with_the_release_build"] = len(rsc)
     sample = dict(scenarios[len(scenarios) // 2]); sample["runs"] = [dict(r, irr="...", running=r["running"][:3],
                   expect={"policies": dict(list(r["expect"]["policies"].items())[:3])}) for r in sample["runs"][:1]]
     cov = {"states": stats["lines"] + 1, "transitions": stats["lines"], "traces_validated_against_impl": len(scenarios),
